@@ -151,6 +151,12 @@ class Program:
                 if len(c2) == 1:
                     return c2[0]
                 return None
+        if '<impl>' in segs and info.get('self_ty'):
+            st = T.type_name_hint(info['self_ty'])[0]
+            c = [b for n, b in self.bodies.items() if n.endswith('>::' + meth) and b.params and st in b.params[0][1]
+                 and len(b.params) == info.get('nargs', len(b.params))]
+            if len(c) == 1:
+                return c[0]
         cands = self.by_suffix.get(meth, [])
         c = [b for sg, b in cands if sg[-len(segs):] == segs or (len(segs) == 1)]
         if len(segs) > 1:
@@ -746,7 +752,8 @@ class Frame:
                             if x[0] == segs[-1]:
                                 variant, fl = i, x[2]
                 if fl is None:
-                    raise Inconclusive('struct aggregate of unknown layout: %s' % name)
+                    # layout not in the source tables (macro-generated struct): MIR lists fields in index order
+                    return Adt(dest_ty or ty, {(None, i): self.operand(op) for i, (_, op) in enumerate(fields)}, None, None)
             vals = {}
             for fname, op in fields:
                 if fname not in fl:
